@@ -63,6 +63,8 @@ fixed('F25', ['C13', 'C01'], 'A14p', 'adsg_core.graph.choice_constraints:get_con
       'a PERMUTATION constraint over more conditionally active choices than options removed every option of every constrained choice up front and the whole design space was reported infeasible, although choices that are not active together are unconstrained (C0 activates 1, 2 or 3 of three constrained choices with two options each: 4 architectures are admitted, GraphProcessor raised "no feasible graphs to begin with" with both encoders; witness/w26)', 'witness/w26', 'no longer remove all options up front')
 fixed('F26', ['C20'], 'A6', 'adsg_core.graph.sup.dsg:SupSelChoiceOptionMapping.resolve:A6:every-originating-node-kept',
       'a source selection choice with two originating nodes (B below the conditional option n2 of choice A and, by an extra edge, below the permanent node n0) is active in every source architecture; the option mapping kept only the first in-edge, so for the architectures with n2 absent resolve() raised "B is inactive, but `None` is missing from the mapping" (with a None entry it would have applied that entry) instead of the option mapped to the selected one (witness/w27)', 'witness/w27', 'consider every originating node')
+fixed('F27', ['C20', 'C08'], 'A11s', 'adsg_core.graph.sup.dsg:SupDSG._mod_graph_adjust_kwargs:A11s:derived-graph-owns-mapping-list',
+      'a SupDSG with one choice mapped is copied and the second choice is mapped on the copy: the copy shared the list of choice mappings with the original, so the original (and every other copy) reported the second mapping as well (1 -> 2 entries; witness/w28)', 'witness/w28', 'gets its own list of choice mappings')
 known('F7', ['C07', 'C03'], 'A6', 'adsg_core.optimization.assign_enc.encoding:EagerEncoder.get_matrix:A6:raw-vector-returned:return (list(vector) + extra_vector, matrix[i_mat, :, :])',
       'on a direct hit the eager encoder returns the input vector instead of the stored -1-marked one, so conditionally inactive variables are reported active (30 vectors in witness/w07)',
       'witness/w07', 'returning the stored vector changes what is_valid_vector(get_matrix(x)[0]) answers and breaks 6 existing tests; not a small repair')
